@@ -50,7 +50,11 @@ def _run_target(args):
         from pyvc.hoare import Unsupported as HUnsupported
         tb = traceback.extract_tb(ex.__traceback__)
         in_real_code = bool(tb) and tb[-1].filename.startswith("<") and isinstance(ex, (NameError, AttributeError, TypeError, KeyError, IndexError, ValueError, ZeroDivisionError))
-        if isinstance(ex, (Unsupported, OUnsupported, HUnsupported, LookupError, NotImplementedError)) and not isinstance(ex, (KeyError, IndexError)):
+        import z3 as _z3
+        if isinstance(ex, _z3.Z3Exception):
+            # the encoding met a value it has no rule for (e.g. the truth value of an object id): the construct is outside the subset
+            sess.unsupported(f"Z3Exception while encoding: {ex}")
+        elif isinstance(ex, (Unsupported, OUnsupported, HUnsupported, LookupError, NotImplementedError)) and not isinstance(ex, (KeyError, IndexError)):
             # the code under contract uses a construct the VC generator has no rule for: undecided, not a crash
             sess.unsupported(f"{type(ex).__name__}: {ex}")
         elif in_real_code:
